@@ -146,7 +146,9 @@ class ContinueCanonicalizationTransformer(converter.Base):
 
   def visit_Try(self, node):
     node.body = self._visit_non_loop_body(node.body)
-    body_may_continue = self.state[_Continue].used
+    # Set by a continue inside the body that was just visited (it is reset
+    # after every statement of the enclosing block).
+    body_may_continue = self.state[_Block].create_guard_next
     node.orelse = self._visit_non_loop_body(node.orelse)
     if node.orelse and body_may_continue:
       # The else clause runs when the body completes; once a continue (or a
